@@ -30,9 +30,13 @@ def compile_script(lines):
   return code
 
 
-def make_class(attrs, name='Thing', value_equality=False):
+def make_class(attrs, name='Thing', value_equality=False, falsy=None):
   tsa = seams.mods['thread_safe_attributes']
   ns = {'_attributes': list(attrs)}
+  if falsy == 'len':
+    ns['__len__'] = lambda self: 0          # a container class whose instances are empty: they are falsy
+  elif falsy == 'bool':
+    ns['__bool__'] = lambda self: False
   if value_equality:
     # a class whose instances compare (and hash) equal by value: they are still distinct objects
     ns['__eq__'] = lambda self, other: type(other) is type(self)
